@@ -22,7 +22,7 @@ import (
 
 func init() {
 	register(&Prop{ID: "C07", Run: runC07, MinNontrivial: 500,
-		Rule:        "cases built by a party knowing only the SP certificate: plaintext in {IdP-signed assertion (replayed), unsigned forged, attacker-signed with own certificate, attacker-signed with the trusted certificate in KeyInfo, non-assertion element, a whole Response, garbage} x 5 data algorithms x {OAEP-MGF1P, OAEP-1.1, PKCS#1 v1.5} x placement {direct child, inside Extensions / Advice / arbitrary wrapper, nested in another assertion} x recipient certificate in EncryptedKey {none, the SP's, another, bad base64} x enclosing Response {unsigned, attacker-signed}; plus a configuration class: ValidateEncryptionCert on/off x SP clock {inside, before, after the SP certificate window} x SP certificate {valid, empty list, empty bytes, junk DER} with a genuinely IdP-signed plaintext; oracle: accepted => every returned assertion equals an IdP-signed record, the encrypted element was a direct child, the named recipient was none or the SP's, and (option on => certificate parses and the injected now is inside its window); the fully valid configuration must accept; non-trivial = decryption logic reached; distinct by parameter tuple; tls.Certificate.Leaf absent / consistent / contradicting the certificate list; encrypted assertions carrying two EncryptedKeys (embedded for a foreign recipient, detached for the SP); EncryptedKey naming another certificate over the SP key or an EC certificate; retired pair in the field with the message encrypted to it; SP key stores holding a certificate bundle [leaf, CA] (validity and recipient naming)",
+		Rule:        "cases built by a party knowing only the SP certificate: plaintext in {IdP-signed assertion (replayed), unsigned forged, attacker-signed with own certificate, attacker-signed with the trusted certificate in KeyInfo, non-assertion element, a whole Response, garbage} x 5 data algorithms x {OAEP-MGF1P, OAEP-1.1, PKCS#1 v1.5} x placement {direct child, inside Extensions / Advice / arbitrary wrapper, nested in another assertion} x recipient certificate in EncryptedKey {none, the SP's, another, bad base64} x enclosing Response {unsigned, attacker-signed}; plus a configuration class: ValidateEncryptionCert on/off x SP clock {inside, before, after the SP certificate window} x SP certificate {valid, empty list, empty bytes, junk DER} with a genuinely IdP-signed plaintext; oracle: accepted => every returned assertion equals an IdP-signed record, the encrypted element was a direct child, the named recipient was none or the SP's, and (option on => certificate parses and the injected now is inside its window); the fully valid configuration must accept; non-trivial = decryption logic reached; distinct by parameter tuple; tls.Certificate.Leaf absent / consistent / contradicting the certificate list; encrypted assertions carrying two EncryptedKeys (embedded for a foreign recipient, detached for the SP); EncryptedKey naming another certificate over the SP key or an EC certificate; retired pair in the field with the message encrypted to it; SP key stores holding a certificate bundle [leaf, CA] (validity and recipient naming); clocks a nanosecond around the certificate bounds; fixture of a foreign certificate sharing four SHA-1 bytes with the SP certificate",
 		Assumptions: []string{"the SP certificate window's exact end instants are not probed"}})
 }
 
